@@ -112,7 +112,7 @@ def theorem_modules(prop):
 def run_translators():
     """regenerate lean/LazeModel/Generated/*.lean from /repo/src (every run)"""
     problems = []
-    for t in ("containers.py", "panics.py"):
+    for t in ("containers.py", "panics.py", "steporder.py"):
         tp = os.path.join(VERIF, "translators", t)
         if os.path.exists(tp):
             rc, out = sh([sys.executable, tp], timeout=300)
